@@ -461,7 +461,12 @@ class ModelInputArrayBijector:
         logging.warning('Unusually small range detected for %s', spec)
 
       def scale_fn(x, low=low, raw_sum=raw_sum, denom=denom):
-        return 1.0 - (np.log(raw_sum - x) - low) / denom
+        # `raw_sum - x` cancels catastrophically near the upper bound when x is
+        # float32 (e.g. bounds (1e-3, 1e3): the upper bound scaled to 1.0017),
+        # so subtract in float64 and cast back.
+        x = np.asarray(x)
+        scaled = 1.0 - (np.log(raw_sum - x.astype(np.float64)) - low) / denom
+        return scaled.astype(x.dtype)
 
       def unscale_fn(x, high=high, raw_sum=raw_sum):
         return raw_sum - np.exp(high - denom * x)
